@@ -26,8 +26,8 @@ func genC06(t *rapid.T) c06Case {
 	nv := rapid.IntRange(1, 3).Draw(t, "nv")
 	for i := 0; i < nv; i++ {
 		g.budget = 7
-		body := g.bounded(40)
-		if rapid.IntRange(0, 2).Draw(t, "wrapNot") == 0 {
+		body := g.bounded(20) // every case validates the same inputs some twenty times
+		if rapid.IntRange(0, 2).Draw(t, "wrapNot") == 0 && m.Not(body).Cost() <= 20 {
 			body = m.Not(body)
 		}
 		p.Validations = append(p.Validations, m.Validation{Name: fmt.Sprintf("v%d", i), Level: pick(t, []string{"violation", "warning", "info"}, "level"), Class: "ex.Test", Body: body})
